@@ -28,6 +28,12 @@ def main():
         seeds.append(s)
         for _ in range(2 if quick else 4):
             seeds.append(pegrun.mutate(rnd, s))
+    # coverage-increasing inputs accumulated by the native fuzzer of C10 (if it has run on this machine)
+    gocache = os.environ.get("GOCACHE", os.path.expanduser("~/.cache/go-build"))
+    corpus = json.loads(vlib.harness(["corpus", "-dir", os.path.join(gocache, "fuzz", "verif", "harness", "fuzz", "FuzzCreate"), "-max", "80"]).stdout)
+    rnd.shuffle(corpus)
+    corpus = corpus[:(300 if quick else 5000)]
+    seeds += corpus
     uniq = pegrun.cheap(seeds, cap, wd)
     world = pegrun.peg_world(toks, 2 if quick else 3, 1, uniq, later=pegrun.LATER)
     res = pegrun.run_peg(chk, "c15", world, shapes=False)
@@ -38,6 +44,7 @@ def main():
     for s in res["samples"]:
         chk.sample(s)
     chk.notes["by_verdict"] = res["byacc"]
+    chk.notes["fuzz_corpus_inputs_offered"] = len(corpus)
     chk.notes["unmodelled_inputs"] = res["unmodelled"]
     chk.notes["step_count_mismatches (fingerprint, not a verdict)"] = len(res["steps"])
     chk.notes["rule"] = ("every sequence of <= %d tokens over %d tokens (keywords, identifier shapes, numbers and near-numbers, complete / unterminated "
